@@ -61,6 +61,13 @@ def check(model, tier):
         "a fixed table and a message, each non-doomed verdict of an emptying node kind needs the executor consulted.",
     )
     m = model
+    # shared rules first: a verdict object that is mutated after being handed out, or a folding answer that is wrong,
+    # corrupts verdicts whatever shape run() has
+    from ..rules import expressions as _expressions
+    from ..rules import mutation as _mutation
+
+    _expressions.r13_1_as_trivial(ctx, rule="R16.5")
+    _mutation.r09_4_no_shared_mutation(ctx)
     run.rule("R16.1", "every doomed verdict has a sound witness for its node kind", 8)
     run.rule("R16.2", "every doomed verdict carries at least one message", 8)
     run.rule("R16.3", "with an executor the verdict is exact: non-doomed verdicts of node kinds that can remove all rows have consulted it; is_empty_invariant flags agree with the reference", 10)
